@@ -45,21 +45,50 @@ Theorem C09_parseval : forall G K (x : list (R * R)) delta delta_f,
 Proof. exact parseval_ft. Qed.
 Print Assumptions C09_parseval.
 
-(* origin at the centre sample N/2 in both domains, for even N (hence the shift theorem) *)
-Theorem C09_centred_even : forall G K (x : list (R * R)) N k delta,
-  List.length x = N -> Nat.even N = true -> (k < N)%nat ->
+(* origin at the centre sample N/2 (floor) in both domains, for EVERY length N >= 1, odd or even
+   (hence the shift theorem) *)
+Theorem C09_centred_every_length : forall G K (x : list (R * R)) N k delta,
+  List.length x = N -> (k < N)%nat ->
   nth k (ft (ROps G K) x delta) (czero (ROps G K))
   = cscale (ROps G K) delta (bigsum (fun n => cmul (ROps G K) (nth n x (czero (ROps G K)))
        (cis (ROps G K) (- (2 * PI) * (INR n - INR (N / 2)) * (INR k - INR (N / 2)) / INR N))) N).
-Proof. exact ft_centred. Qed.
-Print Assumptions C09_centred_even.
+Proof. exact ft_centred_all. Qed.
+Print Assumptions C09_centred_every_length.
+
+(* the same in the inverse direction and in two dimensions (every r x c, odd or even) *)
+Theorem C09_centred_inverse_every_length : forall G K (X : list (R * R)) N k delta_f,
+  List.length X = N -> (k < N)%nat ->
+  nth k (ift (ROps G K) X delta_f) (czero (ROps G K))
+  = cscale (ROps G K) delta_f (bigsum (fun n => cmul (ROps G K) (nth n X (czero (ROps G K)))
+       (cis (ROps G K) (2 * PI * (INR n - INR (N / 2)) * (INR k - INR (N / 2)) / INR N))) N).
+Proof. exact ift_centred_all. Qed.
+
+Theorem C09_centred_2d_every_size : forall G K r c (m : list (list (R * R))) k l delta,
+  wf_mat r c m -> (k < r)%nat -> (l < c)%nat ->
+  nth l (nth k (ft2 (ROps G K) m delta) []) (czero (ROps G K))
+  = cscale (ROps G K) (delta * delta) (bigsum (fun i => bigsum (fun j =>
+       cmul (ROps G K) (nth j (nth i m []) (czero (ROps G K)))
+         (cis (ROps G K) (- (2 * PI) * (INR i - INR (r / 2)) * (INR k - INR (r / 2)) / INR r
+                 + - (2 * PI) * (INR j - INR (c / 2)) * (INR l - INR (c / 2)) / INR c))) c) r).
+Proof. exact ft2_centred_all. Qed.
+Print Assumptions C09_centred_2d_every_size.
+
+(* shift theorem: rolling the input by s samples (numpy.roll) multiplies sample k of the spectrum by the linear
+   phase exp(-2 pi i s (k - N/2)/N), for every length *)
+Theorem C09_shift_theorem : forall G K (x : list (R * R)) N s k delta,
+  List.length x = N -> (s <= N)%nat -> (k < N)%nat ->
+  nth k (ft (ROps G K) (roll s x) delta) (czero (ROps G K))
+  = cmul (ROps G K) (cis (ROps G K) (- (2 * PI) * INR s * (INR k - INR (N / 2)) / INR N))
+         (nth k (ft (ROps G K) x delta) (czero (ROps G K))).
+Proof. exact ft_roll. Qed.
+Print Assumptions C09_shift_theorem.
 
 Local Close Scope R_scope.
 Local Open Scope float_scope.
-(* the full statement "centre sample for odd N too" is refuted by the faithful model *)
-Theorem C09_centred_odd_refuted :
-  all_close 0x1p-20 1 (cflat (ft F delta5 1)) (cflat [(1,0); (1,0); (1,0); (1,0); (1,0)]) = false.
-Proof. exact ft_odd_not_centred. Qed.
+(* executed at binary64: the centred delta of odd length 5 is mapped to the constant 1 *)
+Theorem C09_centred_delta_odd_witness :
+  all_close 0x1p-40 1 (cflat (ft F delta5 1)) (cflat [(1,0); (1,0); (1,0); (1,0); (1,0)]) = true.
+Proof. exact ft_odd_centred_delta5. Qed.
 
 (* what the package exports: every transform name resolves to the Fourier module *)
 Theorem C09_package_exports_fourier_module :
